@@ -167,7 +167,7 @@ def check_cell(ctx, drv, width, spans, stream):
             return False
         if not long_chunk:
             ctx.count(stream + ": unwrap", None)
-            if " ".join(lines)[3:] != s:   # C17_cell_unwrap_statement, exercised only
+            if " ".join(lines)[3:] != s:   # C17_cell_unwrap (proved since round 13; the real textwrap is still compared here)
                 ctx.broken.append("corr:" + stream + " (unwrap statement)")
                 ctx.notes.append(f"lines joined by one space are not the enumeration: width={width} s={s!r} lines={lines}")
                 return False
@@ -403,11 +403,10 @@ def run(ctx):
     ]
     ctx.cov["proved"] = ["C17_membership", "C17_bucket", "C17_bucket_contains", "C17_order", "C17_rows", "C17_total", "C17_summary",
                          "C17_summary_fresh", "C17_stdout", "C17_order_across", "C17_order_across_assess", "C17_cell_roundtrip", "C17_cell_imported",
-                         "C17_cell_not_imported", "C17_cell_wrap_keeps_text", "C17_text_roundtrip", "C17_text_roundtrip_string", "C17_text_okBody_of_db", "C17_text_injective", "C17_text_membership",
+                         "C17_cell_not_imported", "C17_cell_wrap_keeps_text", "C17_cell_unwrap", "C17_text_roundtrip", "C17_text_roundtrip_string", "C17_text_okBody_of_db", "C17_text_injective", "C17_text_membership",
                          "C17_text_rows", "C17_text_bucket_count", "C17_text_reader_counts", "C17_text_reader_sound", "C17_text_roundtrip_strict", "C17_text_strict_le"]
     ctx.cov["exercised_only"] = ["rendering: slugs, table of contents, line-number gutter and source listing",
-                                 "float repr of the costs (showFloat / rowCostText against the real text, line by line)",
-                                 "C17_cell_unwrap_statement (lines joined by one space = the enumeration when no chunk exceeds the first line)"]
+                                 "float repr of the costs (showFloat / rowCostText against the real text, line by line)"]
     finish_tie(ctx)
     return core.finish(ctx)
 
